@@ -31,15 +31,14 @@ import "github.com/dcaiafa/lox/internal/base/set"
 // First(D), and '+' by First('+'). Finally ε is in the final result only
 // because First(D) includes it.
 func First(g *Grammar, syms []Term) set.Set[*Terminal] {
-	visited := new(set.Set[Term])
 	if len(syms) == 1 {
-		return first(g, visited, syms[0])
+		return first(g, syms[0])
 	}
+
 	var firstSet set.Set[*Terminal]
 	for _, sym := range syms {
-		partialFirst := first(g, visited, sym)
+		partialFirst := first(g, sym)
 		firstSet.AddSet(partialFirst)
-
 		// If sym[i] includes ε, include FIRST(sym[i+1]) in FIRST(syms).
 		// Otherwise, stop now.
 		if !partialFirst.Has(Epsilon) {
@@ -47,48 +46,70 @@ func First(g *Grammar, syms []Term) set.Set[*Terminal] {
 			break
 		}
 	}
+
 	return firstSet
 }
 
-func first(g *Grammar, visited *set.Set[Term], s Term) set.Set[*Terminal] {
+// first computes FIRST(s) as a least fixed point over the rules reachable from
+// s, so that recursive rules (xs = xs x | x) and rules that derive ε
+// contribute all of their terminals no matter how often they are referenced.
+func first(g *Grammar, s Term) set.Set[*Terminal] {
 	if terminal, ok := s.(*Terminal); ok {
 		return set.New[*Terminal](terminal)
 	}
 
-	// Productions can contain recursion.
-	// E.g.: xs = xs x | x
-	if visited.Has(s) {
-		return set.Set[*Terminal]{}
-	}
-	visited.Add(s)
-
-	rule := s.(*Rule)
-	firstSet := set.Set[*Terminal]{}
-	for _, prod := range rule.Prods {
-		if len(prod.Terms) == 0 {
-			firstSet.Add(Epsilon)
-			continue
+	// Collect the rules reachable from s, in a deterministic order.
+	var rules []*Rule
+	firsts := make(map[*Rule]*set.Set[*Terminal])
+	var collect func(r *Rule)
+	collect = func(r *Rule) {
+		if _, ok := firsts[r]; ok {
+			return
 		}
-
-		addEpsilon := true
-		for _, term := range prod.Terms {
-			termFirst := first(g, visited, term)
-			hasEpsilon := false
-			termFirst.ForEach(func(s *Terminal) {
-				if s == Epsilon {
-					hasEpsilon = true
-					return
+		firsts[r] = new(set.Set[*Terminal])
+		rules = append(rules, r)
+		for _, prod := range r.Prods {
+			for _, term := range prod.Terms {
+				if rule, ok := term.(*Rule); ok {
+					collect(rule)
 				}
-				firstSet.Add(s)
-			})
-			if !hasEpsilon {
-				addEpsilon = false
-				break
 			}
 		}
-		if addEpsilon {
-			firstSet.Add(Epsilon)
+	}
+	collect(s.(*Rule))
+
+	for changed := true; changed; {
+		changed = false
+		for _, rule := range rules {
+			firstSet := firsts[rule]
+			for _, prod := range rule.Prods {
+				addEpsilon := true
+				for _, term := range prod.Terms {
+					if terminal, ok := term.(*Terminal); ok {
+						changed = firstSet.Add(terminal) || changed
+						addEpsilon = false
+						break
+					}
+					termFirst := firsts[term.(*Rule)]
+					hasEpsilon := false
+					termFirst.ForEach(func(t *Terminal) {
+						if t == Epsilon {
+							hasEpsilon = true
+							return
+						}
+						changed = firstSet.Add(t) || changed
+					})
+					if !hasEpsilon {
+						addEpsilon = false
+						break
+					}
+				}
+				if addEpsilon {
+					changed = firstSet.Add(Epsilon) || changed
+				}
+			}
 		}
 	}
-	return firstSet
+
+	return *firsts[s.(*Rule)]
 }
